@@ -170,6 +170,9 @@ def _lint_file_worker(args: tuple[Path, Path, dict]) -> list[dict]:
         violations = orchestrator.lint_file(file_path)
         # Convert to dicts for pickling
         return [v.to_dict() for v in violations]
+    except ValueError:
+        # Configuration validation errors are user-facing (exit code 2), as in _safe_check_rule
+        raise
     except Exception:
         logger.exception("Worker error processing file: %s", file_path)
         return []
@@ -419,6 +422,8 @@ class Orchestrator:  # thailint: ignore[srp]
         """Extract violations from a completed future, handling errors."""
         try:
             return [Violation.from_dict(d) for d in future.result()]
+        except ValueError:
+            raise
         except Exception:
             logger.exception("Error extracting violations from worker future")
             return []
